@@ -152,6 +152,7 @@ func runC07(r *Run) {
 		if len(what) > 700 {
 			what = what[:700] + "..."
 		}
+		r.Mark("compile against one host value, call with another: " + what)
 		tl := &traceLog{}
 		e := yae.NewExpr()
 		registerStdFns(e, tl)
